@@ -284,8 +284,15 @@ fn git_layer(ctx: &Ctx, quick: bool) -> Stats {
         let n = shape.parents.len();
         {
             let mut repo = Repo::create(&root, &format!("f{si}m{mi}u{ui}"), shape, &gitx::dates(n, *mode));
-            for tags in labelings.iter() {
+            let mut prev_shadow: Vec<String> = vec![];
+            for (li, tags) in labelings.iter().enumerate() {
+                for r in prev_shadow.drain(..) { gitx::git(&repo.dir, &["update-ref", "-d", &r], None); }
                 repo.set_tags(tags);
+                // in every other unit the repository also has a branch (not checked out) and a remote named exactly like each tag, as a
+                // maintenance branch `v1.0.0` would be: git then abbreviates the tag to `tags/v1.0.0` wherever a short ref name is printed
+                let shadow: Vec<String> = if (ui + li) % 2 == 1 { tags.iter().flat_map(|t| [format!("refs/heads/{}", t.name), format!("refs/remotes/{}/HEAD", t.name)]).collect() } else { vec![] };
+                for r in &shadow { gitx::git(&repo.dir, &["update-ref", r, &repo.shas[0]], None); st.inc("git_shadow_refs"); }
+                prev_shadow = shadow.clone();
                 for (b, &tip) in &shape.branches {
                     let head = Head::Branch(b.clone());
                     repo.set_head(&head);
